@@ -191,3 +191,86 @@ Section DictLemmas.
   Lemma NoDup_dict_keys_set d k v : NoDup (dict_keys d) -> NoDup (dict_keys (dict_set d k v)).
   Proof. rewrite dict_keys_set. apply NoDup_add_end. Qed.
 End DictLemmas.
+
+(* ------------------------------------------------------------------ *)
+(* Further dict lemmas (duplicate-free second argument of update, key sets, value maps) *)
+Section DictLemmas2.
+  Context {K V : Type} `{EqDec K}.
+  Implicit Types d : pydict K V.
+
+  Lemma dict_get_app d1 d2 k :
+    dict_get (d1 ++ d2) k = match dict_get d1 k with Some v => Some v | None => dict_get d2 k end.
+  Proof. induction d1 as [|[a b] t IH]; simpl; [reflexivity|]. destruct (eq_dec k a); [reflexivity|exact IH]. Qed.
+
+  Lemma dict_get_rev d k : NoDup (dict_keys d) -> dict_get (rev d) k = dict_get d k.
+  Proof. induction d as [|[a b] t IH]; simpl; intros N; [reflexivity|].
+    inversion N as [|x l Hx N']; subst. rewrite dict_get_app, IH by assumption. simpl.
+    destruct (eq_dec k a) as [ ->|n].
+    - destruct (dict_get t a) eqn:E; [|reflexivity]. apply dict_get_Some_keys in E. contradiction.
+    - destruct (dict_get t k); reflexivity. Qed.
+
+  Lemma dict_get_update_nodup d d2 k : NoDup (dict_keys d2) ->
+    dict_get (dict_update d d2) k = match dict_get d2 k with Some v => Some v | None => dict_get d k end.
+  Proof. intros N. rewrite dict_get_update, dict_get_rev by assumption. reflexivity. Qed.
+
+  Lemma dict_keys_update d d2 : dict_keys (dict_update d d2) = fold_left add_end (dict_keys d2) (dict_keys d).
+  Proof. unfold dict_update. revert d. induction d2 as [|[a b] t IH]; intros d; simpl; [reflexivity|].
+    rewrite IH, dict_keys_set. reflexivity. Qed.
+
+  Lemma In_dict_keys_update d d2 k :
+    In k (dict_keys (dict_update d d2)) <-> In k (dict_keys d) \/ In k (dict_keys d2).
+  Proof. rewrite dict_keys_update. apply In_fold_add_end. Qed.
+
+  Lemma NoDup_dict_keys_update d d2 : NoDup (dict_keys d) -> NoDup (dict_keys (dict_update d d2)).
+  Proof. rewrite dict_keys_update. apply NoDup_fold_add_end. Qed.
+
+  Lemma In_dict_values d k v : dict_get d k = Some v -> In v (dict_values d).
+  Proof. intros E. apply dict_get_In in E. unfold dict_values. apply in_map_iff. exists (k, v). split; [reflexivity|exact E]. Qed.
+
+  Lemma dict_get_map_val {V2 : Type} (g : V -> V2) d k :
+    dict_get (map (fun kv => (fst kv, g (snd kv))) d) k = option_map g (dict_get d k).
+  Proof. induction d as [|[a b] t IH]; simpl; [reflexivity|]. destruct (eq_dec k a); [reflexivity|exact IH]. Qed.
+
+  Lemma dict_keys_map_val {V2 : Type} (g : V -> V2) d :
+    dict_keys (map (fun kv => (fst kv, g (snd kv))) d) = dict_keys d.
+  Proof. unfold dict_keys. rewrite map_map. reflexivity. Qed.
+
+  (* the comprehension {k: d[k] for k in ks} (a missing key omits the entry) *)
+  Local Notation dict_restrict_list d ks :=
+    (flat_map (fun k => match dict_get d k with Some v => [(k, v)] | None => [] end) ks).
+
+  Lemma dict_get_restrict_list d ks k :
+    dict_get (dict_restrict_list d ks) k = if mem k ks then dict_get d k else None.
+  Proof. induction ks as [|a t IH]; simpl; [reflexivity|].
+    rewrite dict_get_app, IH. destruct (eq_dec k a) as [ ->|n].
+    - destruct (dict_get d a) eqn:E; simpl.
+      + destruct (eq_dec a a); congruence.
+      + destruct (mem a t); reflexivity.
+    - destruct (dict_get d a) eqn:E; simpl; [|reflexivity]. destruct (eq_dec k a); [congruence|reflexivity]. Qed.
+
+  Lemma In_keys_restrict_list d ks k :
+    In k (dict_keys (dict_restrict_list d ks)) <-> In k ks /\ In k (dict_keys d).
+  Proof. unfold dict_keys. induction ks as [|a t IH]; simpl; [tauto|].
+    rewrite map_app, in_app_iff, IH. destruct (dict_get d a) eqn:E; simpl.
+    - apply dict_get_Some_keys in E. unfold dict_keys in E. split.
+      + intros [[->|[]]|[? ?]]; tauto.
+      + intros [[->|?] ?]; tauto.
+    - apply dict_get_None in E. unfold dict_keys in E. split.
+      + intros [[]|[? ?]]; tauto.
+      + intros [[->|?] ?]; tauto. Qed.
+
+  Lemma NoDup_keys_restrict_list d ks : NoDup ks -> NoDup (dict_keys (dict_restrict_list d ks)).
+  Proof. induction 1 as [|a t Ha N IH]; simpl; [constructor|].
+    unfold dict_keys in *. simpl. rewrite map_app.
+    destruct (dict_get d a) eqn:E; simpl; [|exact IH]. constructor; [|exact IH].
+    intros I. apply (In_keys_restrict_list d t a) in I. tauto. Qed.
+
+  Lemma dict_get_of_list (l : list (K * V)) k : NoDup (dict_keys l) -> dict_get (dict_of_list l) k = dict_get l k.
+  Proof. intros N. unfold dict_of_list. rewrite dict_get_update_nodup by assumption. simpl. destruct (dict_get l k); reflexivity. Qed.
+
+  Lemma In_dict_keys_of_list (l : list (K * V)) k : In k (dict_keys (dict_of_list l)) <-> In k (dict_keys l).
+  Proof. unfold dict_of_list. rewrite In_dict_keys_update. simpl. tauto. Qed.
+
+  Lemma NoDup_dict_keys_of_list (l : list (K * V)) : NoDup (dict_keys (dict_of_list l)).
+  Proof. unfold dict_of_list. apply NoDup_dict_keys_update. constructor. Qed.
+End DictLemmas2.
